@@ -607,18 +607,48 @@ coll_impl!(<'w> OwnedLockCollection<(Poisonable<R>, R)>, "Owned<(Poisonable<RwLo
 // Store: a tiny typed arena so that built objects can reference earlier ones
 // ------------------------------------------------------------------------------------------
 
+/// Objects built for one execution live in a per-thread, fixed, reused memory region (bump
+/// allocation), so that the *relative addresses* of everything the harness builds (arena leaves,
+/// collection structs, stashed member lists) are the same in every execution and in every worker
+/// thread. Anything the library sorts by address is therefore ordered deterministically, even for
+/// changes to the library that sort objects the unmodified code never sorts.
 pub struct Store {
 	items: RefCell<Vec<(*mut u8, unsafe fn(*mut u8))>>,
+	base: *mut u8,
+	off: std::cell::Cell<usize>,
+}
+const STORE_BYTES: usize = 1 << 20;
+thread_local! {
+	static STORE_BUF: RefCell<Option<(*mut u8, bool)>> = const { RefCell::new(None) };
 }
 impl Store {
 	pub fn new() -> Self {
-		Store { items: RefCell::new(vec![]) }
+		let base = STORE_BUF.with(|b| {
+			let mut b = b.borrow_mut();
+			if b.is_none() {
+				let layout = std::alloc::Layout::from_size_align(STORE_BYTES, 4096).unwrap();
+				let p = unsafe { std::alloc::alloc(layout) };
+				assert!(!p.is_null());
+				*b = Some((p, false));
+			}
+			let e = b.as_mut().unwrap();
+			assert!(!e.1, "harness: two Stores alive on one thread");
+			e.1 = true;
+			e.0
+		});
+		Store { items: RefCell::new(vec![]), base, off: std::cell::Cell::new(0) }
 	}
 	pub fn stash<'s, T: 's>(&'s self, v: T) -> &'s T {
 		unsafe fn dropper<T>(p: *mut u8) {
-			drop(Box::from_raw(p as *mut T));
+			std::ptr::drop_in_place(p as *mut T);
 		}
-		let p = Box::into_raw(Box::new(v));
+		let align = std::mem::align_of::<T>().max(8);
+		let start = (self.off.get() + align - 1) / align * align;
+		let end = start + std::mem::size_of::<T>().max(1);
+		assert!(end <= STORE_BYTES, "harness: store exhausted");
+		self.off.set(end);
+		let p = unsafe { self.base.add(start) } as *mut T;
+		unsafe { std::ptr::write(p, v) };
 		self.items.borrow_mut().push((p as *mut u8, dropper::<T>));
 		unsafe { &*p }
 	}
@@ -629,6 +659,11 @@ impl Drop for Store {
 		while let Some((p, d)) = items.pop() {
 			unsafe { d(p) }
 		}
+		STORE_BUF.with(|b| {
+			if let Some(e) = b.borrow_mut().as_mut() {
+				e.1 = false;
+			}
+		});
 	}
 }
 
@@ -686,7 +721,8 @@ pub const PPR_LEAF: u32 = ARENA_LOCKS + 1;
 pub const ARENA_TOTAL: u32 = ARENA_LOCKS + 2;
 
 impl Arena {
-	pub fn new() -> Box<Arena> {
+	/// The arena is the first object of the execution's store.
+	pub fn new_in(store: &Store) -> &Arena {
 		let r: [R; NR] = std::array::from_fn(|i| reg_r(R0 + i as u32));
 		let m: [M; NM] = std::array::from_fn(|i| reg_m(M0 + i as u32));
 		let pm: [PM; NPM] = std::array::from_fn(|i| Poisonable::new(reg_m(PM0 + i as u32)));
@@ -694,7 +730,7 @@ impl Arena {
 		let ow: [OW; NOW] = std::array::from_fn(|i| OwnedLockCollection::new((0..OWSZ).map(|j| reg_r(OW0 + (i * OWSZ + j) as u32)).collect::<Vec<R>>()));
 		let ppm = Poisonable::new(Poisonable::new(reg_m(PPM_LEAF)));
 		let ppr = Poisonable::new(Poisonable::new(reg_r(PPR_LEAF)));
-		Box::new(Arena { r, m, pm, pr, ow, ppm, ppr })
+		store.stash(Arena { r, m, pm, pr, ow, ppm, ppr })
 	}
 	pub fn is_rw_table() -> Vec<bool> {
 		let mut v = vec![];
